@@ -37,6 +37,7 @@ PROP_MODULES = {
     "C05": ["c05"],
     "C09": ["c03", "c09"],
     "C02": ["c01", "c03", "c05", "c02"],
+    "C19": ["c19"],
 }
 
 
